@@ -137,7 +137,7 @@ async fn delete_stream(h: &mut Harness, c: usize, stream: &IdRef) {
     }
 }
 
-fn purge_partition_model(p: &mut MPartition) {
+pub fn purge_partition_model(p: &mut MPartition) {
     p.msgs.clear();
     p.first_retained = 0;
     p.consumer_offsets.clear();
